@@ -63,13 +63,13 @@ MatchesX(k, m, x, ci) ==
     [] m.t = "single" -> x = m.v
     [] m.t = "wild"   -> Wild(m.v, x, ci \/ k = "PatientName")
     [] m.t = "list"   -> x \in m.v
-    [] m.t = "range"  -> (m.lo = 0 \/ m.lo <= x) /\ (m.hi = 0 \/ x <= m.hi)
+    [] m.t = "range"  -> x # 0 /\ (m.lo = 0 \/ m.lo <= x) /\ (m.hi = 0 \/ x <= m.hi)
 Matches(k, m, x) ==
   CASE m.t \in {"absent", "universal"} -> TRUE
     [] m.t = "single" -> x = m.v
     [] m.t = "wild"   -> Wild(m.v, x, k = "PatientName")
     [] m.t = "list"   -> x \in m.v
-    [] m.t = "range"  -> (m.lo = 0 \/ m.lo <= x) /\ (m.hi = 0 \/ x <= m.hi)
+    [] m.t = "range"  -> x # 0 /\ (m.lo = 0 \/ m.lo <= x) /\ (m.hi = 0 \/ x <= m.hi)      \* (0 / <<>>: the instance has no value)
 
 \* ---- identifier validity (level hierarchy) ----
 Present(id, k) == id.keys[k].t # "absent"
